@@ -50,6 +50,9 @@ MUTANTS = [
  ('selfcheck-accepts-no-match', 'format', 'regexp.rs', '.all(|test_case| regex.find_iter(test_case).count() == 1)', '.all(|test_case| regex.find_iter(test_case).count() <= 1)', 'fail', 'selfcheck.exactly_one_match'),
  ('grapheme-single-char-by-entry-count', 'render', 'grapheme.rs', 'let is_single_char = self.char_count(false) == 1\n            || (self.chars.len() == 1 && self.chars[0].matches(\'\\\\\').count() == 1);', 'let is_single_char = self.chars.len() == 1 && self.chars[0].matches(\'\\\\\').count() <= 1;', 'fail', 'render.grapheme_plain'),
  ('grapheme-group-kind-flipped', 'render', 'grapheme.rs', '        } else if is_range && !is_single_char {\n            write!(\n                f,\n                "{}{}",\n                if self.is_capturing_group_enabled {', '        } else if is_range && !is_single_char {\n            write!(\n                f,\n                "{}{}",\n                if !self.is_capturing_group_enabled {', 'fail', 'render.grapheme_plain'),
+ ('python-wrong-field', 'python', 'python.rs', 'self_.config.is_space_converted = true;', 'self_.config.is_non_space_converted = true;', 'fail', 'python.py_with_conversion_of_whitespace.effect'),
+ ('python-threshold-accepts-zero', 'python', 'python.rs', 'if quantity <= 0 {', 'if quantity < 0 {', 'fail', 'python.py_with_minimum_repetitions'),
+ ('python-build-always-rewrites', 'python', 'python.rs', 'if self.config.is_non_ascii_char_escaped {\n            replace_unicode_escape_sequences(regexp)', 'if !self.config.is_verbose_mode_enabled {\n            replace_unicode_escape_sequences(regexp)', 'fail', 'python.build.delegates'),
  ('wasm-wrong-field', 'wasm', 'wasm.rs', 'self.builder.config.is_start_anchor_disabled = true;\n        self.clone()', 'self.builder.config.is_end_anchor_disabled = true;\n        self.clone()', 'fail', 'wasm.withoutStartAnchor'),
 ]
 def run(repo, only=None, units=None):
